@@ -339,7 +339,7 @@ def run(tier, rep):
         for m in ('central', 'forward', 'backward', 'complex'):
             n = rnds.choice([1, 2])
             if len(r['jet']) > n:
-                scases.append((pi, m, n, rnds.choice([1e-3, 1e-4, 1e-5]), rnds.choice([0.0, 1.0, -0.125, 3.0])))
+                scases.append((pi, m, n, rnds.choice([1e-3, 1e-4, 1e-5, -1e-3, -1e-4]), rnds.choice([0.0, 1.0, -0.125, 3.0])))      # a negative scalar step is a step too
     KS = ENV['honesty']['K_single']
     single_worst, nsingle, nzero = 0.0, 0, 0
     for (pi, m, n, h, a), o in zip(scases, vlib.pool_map(run_single_case, scases, chunksize=32)):
@@ -348,7 +348,7 @@ def run(tier, rep):
         r = uniq[pi]
         exact = exprs.exact_derivative(r['jet'], n)
         s0 = max(abs(t) for t in exprs.jet_floats(r['jet']))
-        floor = 1e3 * np.finfo(float).eps * s0 / h ** n
+        floor = 1e3 * np.finfo(float).eps * s0 / abs(h) ** n
         err = abs(o[1] - exact)
         nsingle += 1
         nzero += exact == 0
